@@ -1014,6 +1014,9 @@ class Connection(object):
             self._continuous_paging_sessions[stream_id].on_error(exc)
 
     def error_all_requests(self, exc):
+        # every reactor's close() ends up here: paging sessions are outstanding requests too
+        self.error_all_cp_sessions(exc)
+
         with self.lock:
             requests = self._requests
             self._requests = {}
